@@ -329,6 +329,6 @@ def run(rep, program: Program, tier: str) -> None:
     )
     rep.assumptions = ["exact equality of the recorded prefix with an uninterrupted run is not decided", "signal delivery inside NumPy/OS primitives is outside the code analysed"]
     et = ExcTypes(program)
-    rule_r1(rep, program, et)
-    rule_r2(rep, program, et)
-    rule_r3(rep, program)
+    rep.isolate(rule_r1, rep, program, et)
+    rep.isolate(rule_r2, rep, program, et)
+    rep.isolate(rule_r3, rep, program)
